@@ -61,6 +61,13 @@ def to_code_data(code: CodeType) -> CodeData:
 
     flags_data -= {"NOFREE"}
 
+    # A free variable is only known by its name, so two with the same name (not
+    # something the compiler does) could not be told apart
+    if len(set(code.co_freevars)) != len(code.co_freevars):
+        raise NotImplementedError(
+            f"Free variables with the same name are not supported: {code.co_freevars}"
+        )
+
     annotations = "annotations" in flags_data
     flags_data -= {"annotations"}
 
